@@ -231,9 +231,33 @@ class Verifier:
         rep.outcomes[outcome[0]] = rep.outcomes.get(outcome[0], 0) + 1
         self.check_outcome(eng, fi, c, names, old, outcome, frm)
 
+    def check_spawns(self, eng, q, tag):
+        """S3: a spawned process starts right after the spawning segment; its entry precondition must hold in the state
+        the segment leaves behind (interference between sibling spawns is not modelled: see DESIGN 7.3)"""
+        st = eng.st
+        for i, (g, p, node) in enumerate(st.spawns):
+            gc = self.spec.contracts.get(g.qual)
+            if gc is None:
+                eng.oblige(f"spawn:{q}:{tag}:{g.qual}:has-no-contract", 'pre', False, node)
+                continue
+            if not gc.requires:
+                continue
+            vals = dict(g.args)
+            for pn, pv in gc.fix.items():
+                if pn in vals and vals[pn] != pv:
+                    eng.oblige(f"spawn-pre:{g.qual}@{q}:{tag}:fixed-param:{pn}", 'pre', False, node)
+            sv = SV(eng, st, vals)
+            ctx = Ctx(eng, sv, sv)
+            for nm, cl in gc.requires(ctx):
+                if nm.startswith('assume:'):
+                    continue
+                eng.oblige(f"spawn-pre:{g.qual}@{q}:{tag}:{nm}", 'pre', cl, node)
+
     def check_outcome(self, eng, fi, c, names, old, outcome, frm=None):
         st = eng.st
         q = c.qual
+        if outcome[0] in ('yield', 'return'):
+            self.check_spawns(eng, q, f"seg{frm}" if frm is not None else 'call')
         if frm is not None:
             # generator segment: the final view also sees the live locals
             allnames = dict(names)
